@@ -4,10 +4,12 @@
 # Output: tools/seeded_on_repo.tsv  (id, property, exit code, first violation class, replay confirmed?)
 cd /verif
 out=tools/seeded_on_repo.tsv
-: > $out
+filter="${1:-}"   # optional substring: only ids containing it are (re)run, other rows are kept
+if [ -n "$filter" ]; then grep -v -- "$filter" $out > $out.tmp; mv $out.tmp $out; else : > $out; fi
 git -C /repo diff --quiet || { echo "/repo working tree is not clean"; exit 2; }
 for d in seeded/*/; do
   id=$(basename $d)
+  [ -n "$filter" ] && [[ "$id" != *"$filter"* ]] && continue
   prop=${id%%-*}
   git -C /repo apply --whitespace=nowarn /verif/$d/patch.diff || { echo -e "$id\t$prop\tPATCH-FAILED" >> $out; continue; }
   log=$(./check $prop quick 2>&1); rc=$?
